@@ -52,7 +52,7 @@ Qed.
 Print Assumptions C05_refused_unchanged_refuted.
 
 (* what get_wsgi_headers hands to the server is clean too, whatever iri_to_uri returns *)
-Theorem C05_wsgi_headers_clean : forall iri r, clean (r_headers r) -> clean (fst (get_wsgi_headers iri r)).
+Theorem C05_wsgi_headers_clean : forall iri join cur r, clean (r_headers r) -> clean (fst (get_wsgi_headers iri join cur r)).
 Proof. exact wsgi_headers_clean. Qed.
 Print Assumptions C05_wsgi_headers_clean.
 
@@ -65,8 +65,8 @@ Proof. exact served_bytes. Qed.
 Print Assumptions C05_body_bytes.
 
 (* no Content-Length for 1xx / 204; the Content-Length werkzeug computes is the number of body bytes *)
-Theorem C05_content_length : forall iri r h,
-  clean (r_headers r) -> get_wsgi_headers iri r = (h, None) ->
+Theorem C05_content_length : forall iri join cur r h,
+  clean (r_headers r) -> get_wsgi_headers iri join cur r = (h, None) ->
   (no_cl_status (r_code r) = true -> hd_getlist h CONTENT_LENGTH = []) /\
   (last_value (r_headers r) CONTENT_LENGTH = None -> r_auto_cl r = true -> r_is_seq r = true ->
    bodyless false (r_code r) = false ->
@@ -77,8 +77,8 @@ Print Assumptions C05_content_length.
 Example C05_content_length_example :
   let r := {| r_headers := [([67; 111; 110; 116; 101; 110; 116; 45; 84; 121; 112; 101], [120])]; r_code := 200%Z; r_line := [];
               r_body := [IStr [104; 233]; IBytes [1; 2]]; r_is_seq := true; r_closable := false; r_passthrough := false;
-              r_auto_cl := true; r_ncb := 0; r_wrapped_cb := false |} in
-  option_map (fun x => hd_getlist (snd x) CONTENT_LENGTH) (match wsgi_response (fun s => s) r false with Ok x => Some x | Err _ => None end)
+              r_auto_cl := true; r_autocorrect := false; r_callbacks := [] |} in
+  option_map (fun x => hd_getlist (snd x) CONTENT_LENGTH) (match wsgi_response (fun s => s) (fun _ l => l) [] r false with Ok x => Some x | Err _ => None end)
     = Some [[53]] /\
   chunk_bytes (s_chunks (serve r false)) = [104; 195; 169; 1; 2].
 Proof. vm_compute. split; reflexivity. Qed.
@@ -96,20 +96,50 @@ Theorem C05_status : forall v line code,
 Proof. exact clean_status_shape. Qed.
 Print Assumptions C05_status.
 
-(* ---------------------------------------------------------------- close exactly once *)
+(* ---------------------------------------------------------------- Location *)
+(* whatever Location the response holds, what get_wsgi_headers hands to the server under that name is ASCII:
+   iri_to_uri is a parameter with the contract that its result is ASCII (percent-encoding part: C15_uri_ascii;
+   IDNA host: the codec's contract), urljoin (autocorrect_location_header) a parameter that maps ASCII to ASCII *)
+Theorem C05_location_ascii : forall iri join cur r h,
+  (forall s, is_ascii (iri s) = true) ->
+  (forall a b, is_ascii a = true -> is_ascii b = true -> is_ascii (join a b) = true) ->
+  clean (r_headers r) -> get_wsgi_headers iri join cur r = (h, None) ->
+  forall v, In v (hd_getlist h LOCATION) -> is_ascii v = true.
+Proof. exact location_ascii. Qed.
+Print Assumptions C05_location_ascii.
+
+(* ---------------------------------------------------------------- close exactly once, in order *)
 (* false for direct passthrough (known finding): the callbacks never run *)
 Theorem C05_close_once_refuted :
-  exists r is_head, r_ncb r = 1%nat /\ c_callbacks (s_counts (serve r is_head)) = 0%nat.
+  exists r is_head, r_callbacks r = [CbUser 0] /\ user_events (s_trace (serve r is_head)) = [].
 Proof. exact close_once_refuted. Qed.
 Print Assumptions C05_close_once_refuted.
 
-(* direct_passthrough = false: after the server iterated and closed the returned iterable every registered
-   callback ran once and the wrapped iterable was closed once (if it can be closed), with or without an earlier
-   make_sequence *)
+(* direct_passthrough = false: what runs when the server closes the returned iterable is, after the close of the
+   encoding generator, exactly Response.close: the wrapped iterable's close (if it has one) and then every entry of
+   _on_close once, in registration order *)
+Theorem C05_close_chain : forall r is_head,
+  r_passthrough r = false ->
+  filter (fun e => match e with EIterClose => false | _ => true end) (s_trace (serve r is_head)) = response_close r /\
+  user_events (s_trace (serve r is_head)) = user_ids (r_callbacks r) /\
+  wrapped_closes (s_trace (serve r is_head)) = ((if r_closable r then 1 else 0) + wrapped_cbs (r_callbacks r))%nat.
+Proof. exact close_once. Qed.
+Print Assumptions C05_close_chain.
+
+(* with or without an earlier make_sequence: every application callback ran exactly once, in order, and the
+   consumed iterable was closed exactly once if it can be closed *)
 Theorem C05_close_once_partial : forall r is_head (pre : bool),
-  r_passthrough r = false -> r_wrapped_cb r = false -> (r_is_seq r = true -> r_closable r = false) ->
+  r_passthrough r = false -> wrapped_cbs (r_callbacks r) = 0%nat -> (r_is_seq r = true -> r_closable r = false) ->
   let r' := if pre then make_sequence r else r in
-  c_callbacks (s_counts (serve r' is_head)) = 1%nat /\
-  c_wrapped (s_counts (serve r' is_head)) = (if r_closable r then 1 else 0)%nat.
+  user_events (s_trace (serve r' is_head)) = user_ids (r_callbacks r) /\
+  wrapped_closes (s_trace (serve r' is_head)) = (if r_closable r then 1 else 0)%nat.
 Proof. exact close_once_make_sequence. Qed.
 Print Assumptions C05_close_once_partial.
+
+Example C05_close_chain_example :
+  let r := {| r_headers := []; r_code := 200%Z; r_line := []; r_body := [IBytes [120]]; r_is_seq := false; r_closable := true;
+              r_passthrough := false; r_auto_cl := true; r_autocorrect := false; r_callbacks := [CbUser 0; CbUser 1; CbUser 2] |} in
+  s_trace (serve (make_sequence r) false) = [EIterClose; EUser 0; EUser 1; EUser 2; EWrapped] /\
+  s_trace (serve r false) = [EIterClose; EWrapped; EUser 0; EUser 1; EUser 2].
+Proof. split; reflexivity. Qed.
+Print Assumptions C05_close_chain_example.
